@@ -13,6 +13,8 @@ TARGETS = {
     "S7": (["b", "c"], ["c"]),
     "S8": (["b"], ["b"]),
     "S9": (["a", "b"], ["b"]),
+    "S10": (["a", "b"], ["b"]),
+    "S11": (["a", "b"], ["b"]),
 }
 
 SM_STUBS = [
@@ -26,10 +28,10 @@ SM_ASSUME = [
 ]
 
 
-def mkjob(shape, K, budget, ext_per_iter=1, nsn_depth=1, variant=0, double_nsn=False, rewrite=False, ext=True, sym_durations=True):
+def mkjob(shape, K, budget, ext_per_iter=1, nsn_depth=1, variant=0, double_nsn=False, rewrite=False, ext=True, sym_durations=True, by_ref=False):
     tg, et = TARGETS[shape]
     return dict(shape=shape, variant=variant, sym_durations=sym_durations,
-                cfg=dict(K=K, act_budget=budget, nsn_depth=nsn_depth, targets=tg, ext_targets=et,
+                cfg=dict(K=K, act_budget=budget, nsn_depth=nsn_depth, targets=tg, ext_targets=et, engage_by_reference=by_ref,
                          ext_menu="full" if ext else "engage-only",
                          ext_per_iter=ext_per_iter, double_nsn=double_nsn, rewrite_durations=rewrite))
 
@@ -54,6 +56,12 @@ class SMSpec(Spec):
             return
         H = smc.run_history(c, job)
         self.clause_fn(c, H)
+
+    def twinjob(self, shape, K, budget, variant=0):
+        j = mkjob(shape, K, budget, variant=variant)
+        j["cfg"]["twin"] = True
+        j["cfg"]["ext_menu"] = "engage-only"
+        return j
 
     def stepjob(self, shape, budget=1, variant=0):
         j = mkjob(shape, 1, budget, variant=variant)
@@ -85,7 +93,8 @@ class C01(SMSpec):
         if tier == "quick":
             return ([mkjob(s, 3, 2) for s in ("S1", "S3", "S4", "S5")] + [mkjob("S4", 2, 1, ext_per_iter=2, variant=3), mkjob("S3", 2, 1, ext_per_iter=2, variant=3)]
                     + [mkjob("S1", 2, 2, double_nsn=True, variant=4), mkjob("S3", 2, 1, double_nsn=True, variant=5)]
-                    + [self.stepjob(s) for s in ("S3", "S4")])
+                    + [self.stepjob(s) for s in ("S3", "S4")]
+                    + [mkjob("S11", 5, 0, ext=False, variant=2), mkjob("S8", 4, 0, ext=False, variant=1)])
         return ([mkjob(s, 4, 2, variant=1) for s in ("S1", "S3", "S4", "S5")]
                 + [mkjob(s, 3, 3, ext_per_iter=2, nsn_depth=2, variant=2, double_nsn=True) for s in ("S1", "S3", "S4", "S5")]
                 + [self.stepjob(s, 2, 1) for s in ("S1", "S3", "S4", "S5", "S8")])
@@ -117,7 +126,9 @@ class C04(SMSpec):
     def jobs(self, tier):
         if tier == "quick":
             return ([mkjob(s, 3, 2) for s in ("S1", "S2", "S3", "S4")] + [mkjob("S8", 3, 1)]
-                    + [mkjob("S4", 2, 1, ext_per_iter=2, variant=2), mkjob("S8", 2, 0, ext_per_iter=2, variant=2), mkjob("S1", 2, 1, ext_per_iter=2, variant=2)])
+                    + [mkjob("S4", 2, 1, ext_per_iter=2, variant=2), mkjob("S8", 2, 0, ext_per_iter=2, variant=2), mkjob("S1", 2, 1, ext_per_iter=2, variant=2)]
+                    + [mkjob("S3", 3, 0, variant=5, by_ref=True), mkjob("S4", 3, 1, variant=4, by_ref=True)]
+                    + [self.twinjob("S1", 3, 0), self.twinjob("S4", 3, 0)])
         return ([mkjob(s, 4, 2, variant=3) for s in ("S1", "S2", "S3", "S4", "S8")]
                 + [mkjob(s, 3, 3, ext_per_iter=2, nsn_depth=2, variant=4) for s in ("S1", "S2", "S4", "S8")])
 
@@ -152,7 +163,8 @@ class C02(SMSpec):
             return ([mkjob(s, 6, 0, ext=False) for s in ("S2", "S6", "S7")] + [mkjob("S1", 5, 1, ext=False)]
                     + [mkjob("S6", 5, 0, ext=False, rewrite=True, variant=1), mkjob("S2", 4, 0, ext=False, rewrite=True, variant=1)]
                     # decorator-default durations (nothing written to the duration topics), incl. a redefined timed state
-                    + [mkjob("S9", 6, 0, ext=False, sym_durations=False), mkjob("S7", 5, 0, ext=False, sym_durations=False, variant=2)])
+                    + [mkjob("S9", 6, 0, ext=False, sym_durations=False), mkjob("S7", 5, 0, ext=False, sym_durations=False, variant=2),
+                       mkjob("S10", 5, 0, ext=False, sym_durations=False, variant=3), mkjob("S11", 6, 0, ext=False, variant=4)])
         return ([mkjob(s, 8, 1, ext=False, variant=1, rewrite=True) for s in ("S2", "S6")]
                 + [mkjob("S7", 8, 0, ext=False, variant=2, rewrite=True), mkjob("S1", 7, 1, ext=False, variant=1),
                    mkjob("S3", 6, 1, ext=False, variant=5)])
@@ -193,8 +205,8 @@ class C13(SMSpec):
         "histories longer than K calls",
     ]
 
-    def mk(self, shape, K, budget, variant=0, nsn_depth=1, done_next=False):
-        j = mkjob(shape, K, budget, variant=variant, nsn_depth=nsn_depth)
+    def mk(self, shape, K, budget, variant=0, nsn_depth=1, done_next=False, sym_durations=True):
+        j = mkjob(shape, K, budget, variant=variant, nsn_depth=nsn_depth, sym_durations=sym_durations)
         j["asm"] = True
         j["cfg"]["asm"] = True
         if done_next:
@@ -205,7 +217,8 @@ class C13(SMSpec):
     def jobs(self, tier):
         if tier == "quick":
             return [self.mk("S1", 6, 2), self.mk("S2", 6, 1), self.mk("S3", 5, 2), self.mk("S7", 6, 0), self.mk("S8", 5, 1),
-                    self.mk("S1", 6, 1, variant=2, done_next=True)]
+                    self.mk("S1", 6, 1, variant=2, done_next=True), self.mk("S10", 6, 0, variant=1, sym_durations=False),
+                    self.mk("S9", 6, 0, variant=2, sym_durations=False)]
         return [self.mk("S1", 8, 2, 1), self.mk("S2", 8, 2, 2), self.mk("S3", 6, 3, 3, 2), self.mk("S7", 9, 1, 4),
                 self.mk("S8", 7, 2, 5), self.mk("S4", 6, 2, 1), self.mk("S6", 8, 1, 2), self.mk("S1", 7, 2, 3, done_next=True),
                 self.mk("S3", 6, 2, 4, done_next=True)]
